@@ -120,11 +120,22 @@ Theorem C13_trace_fuel_sufficient : forall s ds, final_status s ds <> Diverged.
 Proof. exact run_never_diverges. Qed.
 Print Assumptions C13_trace_fuel_sufficient.
 
-(* kept visible, not proved in the time box (reported under open_statements):
-   equality also holds when the walk stops because the decisions ran out *)
-Definition C13_exhausted_equality_full_statement : Prop := forall body g ds,
+(* equality also holds when the source stops because the decisions ran out at a
+   condition: the walk stops at that condition too (an Exhausted execution has
+   met no return before, the statuses being exclusive) *)
+Require Import Proofs.LiftExhausted.
+Theorem C13_exhausted_equality : forall body g ds,
   lift body = Ok g -> final_status body ds = Exhausted ->
   exists n0, forall n, n0 <= n -> walk n g ds = trace body ds.
+Proof. exact cfg_equals_source_exhausted. Qed.
+Print Assumptions C13_exhausted_equality.
+
+(* non-vacuity: the decisions run out at the condition inside the loop *)
+Example C13_exhausted_witness :
+  let body := SBlock [SLeaf 1 false; SWhile 2 (SBlock [SIf 3 (SLeaf 4 true) None; SLeaf 5 false]); SLeaf 6 false] in
+  exists g, lift body = Ok g /\ final_status body [true] = Exhausted /\
+    trace body [true] = [KLeaf 1; KCond 2; KCond 3] /\ walk 40 g [true] = [KLeaf 1; KCond 2; KCond 3].
+Proof. vm_compute. eexists. repeat split; reflexivity. Qed.
 
 (* non-vacuity: a loop with a return inside; the walk goes on past the return *)
 Example C13_witness :
